@@ -877,7 +877,7 @@ class C15(Prop):
         return {'LokiModel/Generated/C15Tables.lean': '\n'.join(body)}
 
     def gen(self, rng, tier):
-        ntrees = {'quick': 22, 'thorough': 300, 'search': 120}.get(tier, 30)
+        ntrees = {'quick': 18, 'thorough': 300, 'search': 120}.get(tier, 30)
         quota = {'quick': 3}.get(tier, 4)
         seen = set()
 
@@ -904,7 +904,7 @@ class C15(Prop):
                                       nontrivial=bool(names))])
         # expression nodes that are falsy in Python (IntLiteral(0), 0 with a kind, .false.) in every expression-bearing field:
         # declaration initial values, dimensions, loop bounds, conditions, call arguments, keyword arguments
-        for _ in range({'quick': 3}.get(tier, 40)):
+        for _ in range({'quick': 2}.get(tier, 40)):
             yield from emit(mk_cases(rng, [A('ir'), g_falsy_tree(rng)], 'falsy', 6))
         # programmatic trees
         for i in range(ntrees):
@@ -1012,6 +1012,13 @@ class C15(Prop):
                 gk, pk = [doc_key(v) for v in got], {doc_key(v) for v in plain}
                 if len(set(gk)) != len(gk) or set(gk) != pk or not all(any(g is p for p in plain) for g in got):
                     fails.append(Failure(f'{finder}(unique=True) keys {sorted(map(str, gk))} vs keys of the plain result {sorted(map(str, pk))}', None))
+                else:
+                    # ... and against the independent reference (not only against the finder's own list mode)
+                    rk = {doc_key(v) for v in want}
+                    if set(gk) != rk:
+                        cls = 'expression-field-not-traversable' if (hidden_hit and set(gk) <= rk) else None
+                        fails.append(Failure(f'{finder}(unique=True): keys missing {sorted(map(str, rk - set(gk)))} extra {sorted(map(str, set(gk) - rk))} '
+                                             'with respect to all expressions of the tree', cls))
             else:
                 cls = None
                 flat = []
